@@ -13,9 +13,48 @@ NEG = {ast.Eq: ast.NotEq, ast.NotEq: ast.Eq, ast.Lt: ast.GtE, ast.GtE: ast.Lt, a
 CONSUMERS = {"tuple", "frozenset", "set", "sum", "any", "all", "sorted", "min", "max", "dict"}
 
 
+def _always_exits(block) -> bool:
+    """Every path through the block ends in return / raise / break / continue."""
+    if not block:
+        return False
+    last = block[-1]
+    if isinstance(last, (ast.Return, ast.Raise, ast.Break, ast.Continue)):
+        return True
+    if isinstance(last, ast.If):
+        return _always_exits(last.body) and _always_exits(last.orelse)
+    return False
+
+
+def guard_form(stmts):
+    """if c: A else: B, where one branch always leaves (return / raise / break / continue), is the guard clause
+    `if <leaving condition>: <leaving branch>` followed by the other branch: one spelling for
+    `if ok: work else: raise`, `if not ok: raise` + work, and `if a: return x else: return y`."""
+    out = []
+    for s in stmts:
+        if isinstance(s, ast.If) and s.orelse:
+            b_exit, o_exit = _always_exits(s.body), _always_exits(s.orelse)
+            if b_exit:
+                rest = s.orelse
+                s.orelse = []
+                out.append(s)
+                out.extend(guard_form(rest))
+                continue
+            if o_exit:
+                neg = ast.copy_location(ast.UnaryOp(op=ast.Not(), operand=s.test), s.test)
+                neg = Canon().visit_UnaryOp(neg, descend=False)
+                rest = s.body
+                s.test, s.body, s.orelse = neg, s.orelse, []
+                out.append(s)
+                out.extend(guard_form(rest))
+                continue
+        out.append(s)
+    return out
+
+
 class Canon(ast.NodeTransformer):
-    def visit_UnaryOp(self, node):
-        self.generic_visit(node)
+    def visit_UnaryOp(self, node, descend=True):
+        if descend:
+            self.generic_visit(node)
         if isinstance(node.op, ast.Not) and isinstance(node.operand, ast.Compare) and len(node.operand.ops) == 1 and type(node.operand.ops[0]) in NEG:
             c = node.operand
             new = ast.Compare(left=c.left, ops=[NEG[type(c.ops[0])]()], comparators=c.comparators)
@@ -37,6 +76,17 @@ class Canon(ast.NodeTransformer):
             return ast.copy_location(ast.Compare(left=r, ops=[op()], comparators=[l]), node)
         if op in (ast.Eq, ast.NotEq) and isinstance(l, ast.Constant) and not isinstance(r, ast.Constant):
             return ast.copy_location(ast.Compare(left=r, ops=[op()], comparators=[l]), node)
+        return node
+
+    def generic_visit(self, node):
+        node = super().generic_visit(node)
+        for fld in ("body", "orelse", "finalbody"):
+            lst = getattr(node, fld, None)
+            if isinstance(lst, list) and lst and isinstance(lst[0], ast.stmt):
+                setattr(node, fld, guard_form(lst))
+        if isinstance(node, ast.Try):
+            for h in node.handlers:
+                h.body = guard_form(h.body)
         return node
 
     def visit_Call(self, node):
